@@ -52,6 +52,7 @@ type Mint struct {
 	Options      uint32
 	Pvno         int
 	MsgType      int
+	TktTrailing  []byte // raw DER appended inside the ticket SEQUENCE after enc-part
 	TktCipherMut func([]byte) []byte
 	AutCipherMut func([]byte) []byte
 	Conf         func(n int) []byte // confounder source
@@ -78,7 +79,7 @@ func (m Mint) Build() ([]byte, error) {
 	if lbl == 0 {
 		lbl = m.ServiceKey.Type
 	}
-	tkt := kmsg.Ticket{Vno: m.TktVno, Realm: m.Realm, SName: m.SName, Enc: kmsg.EncData{Etype: lbl, Kvno: m.Kvno, Cipher: tc}}
+	tkt := kmsg.Ticket{Vno: m.TktVno, Realm: m.Realm, SName: m.SName, Enc: kmsg.EncData{Etype: lbl, Kvno: m.Kvno, Cipher: tc}, Trailing: m.TktTrailing}
 	ak := m.Tkt.Key
 	if m.AuthKey != nil {
 		ak = *m.AuthKey
